@@ -5,6 +5,7 @@ import PdshVerif.Pcp.Multi
 import PdshVerif.Pcp.SessionLemmas
 import PdshVerif.Pcp.PacedTree
 import PdshVerif.Pcp.Refused
+import PdshVerif.Pcp.Mixed
 
 /-! # C11  pdcp/rpdcp reproduce the source tree exactly on every target
 
@@ -49,13 +50,32 @@ write faults (`o.fsize = none`).  Times are in microseconds, the resolution of t
                         streams, it ends with the same file system, one copy per target under `SRC.host`
                         (`recvKids_perm`: sibling trees under different names commute).
 
-Modelled, not proved: the sender's reaction to an error reply (it skips the data after a failed `C`
-record: `itemsBytes`; the correspondence compares real client streams only for all-positive replies
-and for write faults); the threads of the real rpdcp receiver are represented by sequential
+* `dir_mtime_after_entries`
+                     -- with -p a directory ends with the source's modification time although its entries were
+                        created after it: the receiver sets the time after it has populated the directory.
+* `error_isolated_session`
+                     -- the last clause of C11 for the INTERACTIVE client in its repaired form (it reads every reply:
+                        Pcp/Session.lean), for any mixture in any order of sources that arrive, regular files whose
+                        name is taken by a directory and directories whose name is taken by a regular file: client and
+                        receiver stay in step, exactly one error record per source that cannot be written, and the file
+                        system ends exactly as if those sources had not been named (induction `session_items`,
+                        Pcp/Mixed.lean).  Generalises `error_isolated_refused_dir` (one refused directory, first) and
+                        lifts `error_isolated_open` from the byte stream `itemsBytes` to the dialogue.
+* Pcp/Statics.lean   -- what K receivers of one process share besides the file system: the static objects and the
+                        process-wide calls of pcp_server.c, compared with the translation unit on every run.
+
+Modelled, not proved: the threads of the real rpdcp receiver are represented by sequential
 processing in an arbitrary order (assumption: the kernel serialises operations per path, and the
-targets' names are distinct, so the threads work on disjoint sub-trees).
-Not proved: a directory that cannot be created (finding F11-DIRFAIL-SCATTER: the statement is false),
-several targets of a forward copy (each runs this receiver on its own file system: C03/C09).
+targets' names are distinct, so the threads work on disjoint sub-trees); sources that cannot be written BELOW the
+top level of a copied tree (inside a directory that does arrive) are covered by the correspondence (pinned conflict
+cases at depth 2 and 3, session model `sess`) and by `error_isolated_open`/`copy_with_write_faults` at the byte
+level, not by `error_isolated_session`, whose items are the sources the user names.
+A source that cannot be READ: the repaired client (da13fc3) checks every entry with access(2) while it expands the
+sources and ends before the first byte is sent (stated, not modelled: the model's trees are readable; pinned end-to-end
+case `unreadable` as uid 1000 and the four refused-source kinds).
+Not proved: several targets of a forward copy (each runs this receiver on its own file system: C03/C09).
+For the client AS FOUND a directory that cannot be created scatters its entries (finding F11-DIRFAIL-SCATTER, fixed
+in /repo: `dirfail_scatter_witness`).
 -/
 namespace PdshVerif.Props.C11
 open PdshVerif.Pcp PdshVerif.Gen
@@ -243,6 +263,23 @@ theorem preserve_meta_dir_repaired (o : Opts) (hp : o.preserve = true) (hfix : o
       rw [MODEMASK_eq]; exact Nat.and_two_pow_sub_one_eq_mod m 12
     simp only [hp, ↓reduceIte, recvDirMode, hfix, Bool.and_self, hmask, Nat.mod_mod]
   · rw [hp] at h; cases h
+
+/-- **A directory's modification time survives its own entries** (-p).  Creating the entries of a directory
+refreshes its modification time (`FS.bumpDir`, as the kernel does), so the receiver must set the time AFTER it
+has populated the directory -- pcp_server.c calls `utimes` after the recursive `_sink` has returned, `recvTree`
+mirrors that order.  Whatever the directory holds (`sub`: any entries, any depth), wherever it stands among its
+siblings, it ends with the source's modification time. -/
+theorem dir_mtime_after_entries (o : Opts) (hp : o.preserve = true) (ss : Bool) (fs : FS) (q : Path)
+    (kids : List (Str × Tree)) (n : Str) (m t a : Nat) (sub : List (Str × Tree))
+    (hm : (n, Tree.dir m t a sub) ∈ kids) (hd : kids.Pairwise (fun a b => a.1 ≠ b.1)) :
+    ∃ md, recvKids o ss fs q kids (q ++ [n]) = some (.dir md (some (sentTime ss t))) := by
+  obtain ⟨fs0, h⟩ := recvKids_lookup o ss fs q kids n _ hm hd
+  rw [h]
+  rcases received_dir o ss fs0 q n m t a sub with h1 | ⟨h1, _⟩
+  · refine ⟨recvDirMode o fs0 q n m, ?_⟩
+    rw [h1]
+    simp [hp]
+  · rw [hp] at h1; cases h1
 
 /-- the hypotheses of `preserve_meta_dir` are satisfiable: mode 0755 below a 0755 parent -/
 example : (0o755 % 4096 < 1024) ∧ ((0o755 : Nat) &&& 0o2000 = 0) := by decide
@@ -769,6 +806,72 @@ theorem error_isolated_refused_dir (o : Opts) (hc : CntOk o) (hnf : o.fsize = no
   · rw [faultsKids_none o hnf] at hrsa
     exact hrsa.all_ack
 
+/-- **`error_isolated` for the dialogue** (the last clause of C11, repaired client, any mixture of sources).
+The user names the sources `items`, in any order: trees that arrive (`SItem.good`), regular files whose name is
+taken by a directory on the target (`SItem.blockedFile`), directories whose name is taken by a regular file
+(`SItem.refusedDir`).  The client READS every reply and reacts (Pcp/Session.lean): after the error reply to a `C`
+record it sends neither data nor NUL, after the error reply to a `D` record it skips the directory's list elements
+and its leave-directory sentinel.  Then client and receiver stay in step through the whole list, the receiver
+consumes everything and ends at the top level, the file system is `recvKids … (sGoods so items)` -- EXACTLY as if
+the sources that cannot be written had not been named, so every other file is identical to its source
+(`received_file`, `received_dir` for every node, `no_other_entries`) and what was in the way is untouched -- and the
+replies are acknowledgements and exactly ONE error record per source that cannot be written (`sBad items`). -/
+theorem error_isolated_session (o : Opts) (hc : CntOk o) (hnf : o.fsize = none) (so : SOpts) (co : COpts)
+    (hco : co.skipRefused = true) (hp : so.preserve = o.preserve) (fs : FS) (D : Path) (items : List SItem)
+    (budget : Nat) (hres : resolve fs o.cwd o.dest = some D) (hdir : fs.isDir D = true)
+    (hb : o.dest.length + budget < PCP_PATH_MAX) (hok : SItemsOk so budget fs D items) :
+    (sessionEnd so co o fs (items.map SItem.src)).fs = recvKids o so.subsec fs D (sGoods so items) ∧
+    (∃ rs, (sessionEnd so co o fs (items.map SItem.src)).out.reverse = .ack :: rs ∧ RsI rs 0 (sBad items)) ∧
+    (sessionEnd so co o fs (items.map SItem.src)).phase = .done := by
+  have hv : VerifyOk o fs := fun _ => ⟨D, hres, hdir⟩
+  have h0 : enter o (St.init fs) o.dest =
+      { St.init fs with out := [.ack],
+                        stack := [{ targ := o.dest, targisdir := true, setimes := false, mt := default, atm := default }],
+                        phase := .start } := by
+    rw [enter_ok (p := D) hv hres hdir]
+    rfl
+  have hat : AtDir o (enter o (St.init fs) o.dest)
+      { targ := o.dest, targisdir := true, setimes := false, mt := default, atm := default } [] D := by
+    rw [h0]
+    exact ⟨rfl, rfl, rfl, hres, hdir, hv, ⟨usecOk_zero _, usecOk_zero _⟩⟩
+  have hfs0 : (enter o (St.init fs) o.dest).fs = fs := by rw [h0]; rfl
+  have hout0 : (enter o (St.init fs) o.dest).out = [.ack] := by rw [h0]
+  have hr := read_ack (s := { st := enter o (St.init fs) o.dest, sent := [], consumed := 0, failed := false,
+                              skip := 0, dead := false }) (old := []) rfl hout0
+  have hi : InSync ({ st := enter o (St.init fs) o.dest, sent := [], consumed := 0 + 1, failed := false,
+                      skip := 0, dead := false } : Sess) := ⟨rfl, rfl, by simp [hout0]⟩
+  obtain ⟨_, ⟨f2, hat2, _, _⟩, j3, rs, hout, hrs⟩ := session_items hc hnf so co hco hp budget [] D items
+    { st := enter o (St.init fs) o.dest, sent := [], consumed := 0 + 1, failed := false, skip := 0, dead := false }
+    _ hi hat (fun e => by cases e) hb (by show SItemsOk so budget (enter o (St.init fs) o.dest).fs D items; rw [hfs0]; exact hok)
+  have hsess : (session so co o fs (expandAll (items.map SItem.src))).st =
+      ((expandAll (items.map SItem.src)).foldl (clientStep so co o)
+        { st := enter o (St.init fs) o.dest, sent := [], consumed := 0 + 1, failed := false, skip := 0,
+          dead := false }).st := by
+    unfold session
+    dsimp only
+    rw [hr]
+    simp only [Bool.not_true, Bool.false_eq_true, if_false]
+  unfold sessionEnd
+  rw [hsess]
+  generalize ((expandAll (items.map SItem.src)).foldl (clientStep so co o)
+      { st := enter o (St.init fs) o.dest, sent := [], consumed := 0 + 1, failed := false, skip := 0,
+        dead := false }).st = st3 at hat2 j3 hout
+  have hfin : finish o st3 = { st3 with stack := [], phase := .done } := by
+    unfold finish
+    simp only [hat2.phase]
+    unfold leave
+    simp only [hat2.stack]
+    rfl
+  rw [hfin]
+  refine ⟨?_, ⟨rs.reverse, ?_, ?_⟩, rfl⟩
+  · show st3.fs = _
+    rw [j3, hfs0]
+  · show st3.out.reverse = _
+    rw [hout, hout0]
+    simp
+  · exact ⟨fun r hr => hrs.1 r (List.mem_reverse.1 hr), by rw [List.count_reverse]; exact hrs.2.1,
+      by rw [List.count_reverse]; exact hrs.2.2⟩
+
 /-- `/w/d` holds a regular FILE `t`: the directory `t` cannot be created -/
 def sfs : FS := fun p =>
   if p = [] then some (.dir 0o755 none)
@@ -791,6 +894,29 @@ theorem dirfail_scatter_witness :
     ((sessionEnd sso ⟨true⟩ ro sfs ssrcs).fs [[119], [100], [101]]).isSome = false ∧
     (session sso ⟨true⟩ ro sfs (expandAll ssrcs)).sent = dRecord 0o755 [116] ∧
     (sessionEnd sso ⟨true⟩ ro sfs ssrcs).out.reverse = [.ack, .err .path] := by
+  decide +kernel
+
+/-- the hypotheses of `error_isolated_session` are satisfiable, with one source of each kind: in `/w/d` the name
+`f` is taken by a directory and `g` by a regular file; the user copies the file `f`, the tree `t` and the
+directory `g` -/
+def mfs : FS := fun p =>
+  if p = [] then some (.dir 0o755 none)
+  else if p = [[119]] then some (.dir 0o755 none)
+  else if p = [[119], [100]] then some (.dir 0o755 none)
+  else if p = [[119], [100], [102]] then some (.dir 0o755 none)
+  else if p = [[119], [100], [103]] then some (.file 0o644 none [90])
+  else none
+
+def mitems : List SItem :=
+  [.blockedFile [102] 0o644 0 0 [65, 66], .good [116] (.dir 0o755 0 0 [([101], .file 0o644 0 0 [88])]),
+   .refusedDir [103] 0o755 0 0 [([107], .file 0o600 0 0 [89])]]
+
+example :
+    (sessionEnd sso ⟨true⟩ ro mfs (mitems.map SItem.src)).fs [[119], [100], [116], [101]] = some (.file 0o644 none [88]) ∧
+    (sessionEnd sso ⟨true⟩ ro mfs (mitems.map SItem.src)).fs [[119], [100], [103]] = some (.file 0o644 none [90]) ∧
+    (sessionEnd sso ⟨true⟩ ro mfs (mitems.map SItem.src)).fs [[119], [100], [107]] = none ∧
+    (sessionEnd sso ⟨true⟩ ro mfs (mitems.map SItem.src)).out.reverse =
+      [.ack, .err .path, .ack, .ack, .ack, .ack, .err .path] := by
   decide +kernel
 
 end PdshVerif.Props.C11
